@@ -3,7 +3,7 @@
    restriction, a cache hit that masks the depth limit, and witnesses that the
    hypotheses of the theorems are satisfiable. *)
 From Coq Require Import List Arith Bool Lia.
-From GoPdf.C18 Require Import Cache CacheLemmas CacheInv CacheExcl CacheOnce CacheLive CachePair CacheSeq CacheThm.
+From GoPdf.C18 Require Import Cache CacheLemmas CacheInv CacheExcl CacheOnce CacheLive CacheRank CachePair CacheSeq CacheProv CacheThm.
 Import ListNotations.
 
 Definition next12 (r : ref) : option ref := if Nat.eqb r 1 then Some 2 else None.
@@ -118,6 +118,34 @@ Proof.
   - ops; unfold sink_ok; sinkgoal.
 Qed.
 
+(* ---- the rank condition: satisfied by the cross-type programs of the harness (the decode function of
+   (1, T0) exclusively decodes the same reference as T1) and by the pages+form shape; impossible for
+   the cyclic dependency of body_nosink ---- *)
+Definition body_cross (e : ref) (t : ty) : list op :=
+  match e, t with 1, 0 => [OExcl true 1 1] | _, _ => [] end.
+Definition rk_cross (r : ref) (t : ty) : nat := if Nat.eqb t 0 then 1 else 0.
+
+Example cross_type_is_ranked : ranked nonext body_cross rk_cross.
+Proof.
+  intros r0 e t H. apply ce_nonext in H; subst e.
+  destruct r0 as [|[|r0]]; destruct t as [|t]; simpl; repeat constructor.
+Qed.
+
+Definition rk_form (r : ref) (t : ty) : nat := if Nat.eqb t 0 then (if Nat.eqb r 3 then 1 else 2) else 0.
+
+Example pages_form_is_ranked : ranked nonext body_form rk_form.
+Proof.
+  intros r0 e t H. apply ce_nonext in H; subst e.
+  destruct r0 as [|[|[|[|r0]]]]; destruct t as [|t]; simpl; repeat constructor.
+Qed.
+
+Example cyclic_has_no_rank : ~ exists rk, ranked nonext body_nosink rk.
+Proof.
+  intros [rk H].
+  assert (H1 := H 1 1 0 (ce_end nonext 1 eq_refl)). assert (H2 := H 2 2 0 (ce_end nonext 2 eq_refl)).
+  simpl in H1, H2. inversion H1; subst. inversion H2; subst. simpl in *. lia.
+Qed.
+
 Example pair_hypotheses_satisfiable :
   (forall e t, Forall (pair_only nonext 0 1) (nobody e t)) /\
   Forall (Forall (pair_only nonext 0 1)) [[OPair 1 0 1]; [OPair 1 0 1; ODecode true 1 2]].
@@ -138,3 +166,45 @@ Example no_excl_hypotheses_satisfiable :
   (forall e t, Forall (no_excl nonext) (nobody e t)) /\
   Forall (Forall (no_excl nonext)) [[ODecode true 1 0; OPair 2 0 1]; [ODecode false 2 0]].
 Proof. split; [intros; constructor|repeat constructor]. Qed.
+
+(* ---- each case of `masked` occurs: the characterisation of seq_equiv is tight ---- *)
+Definition differs (next : ref -> option ref) (fails : ref -> ty -> bool) (maxdepth : nat) (lg : list event) : Prop :=
+  exists tid c v, In (EDec tid c (Ok v)) lg /\ class_of (Ok v) <> alone next fails maxdepth (cref c) (cpath c) (cty c) /\
+                  masked next fails maxdepth lg (cref c) (cpath c) (cty c).
+
+(* mutually referential objects: goroutine 0 is inside the decoder of 2 (inside the decoder of 1) and about
+   to decode 1 again - alone a cycle error; meanwhile goroutine 1 has decoded and published 1 *)
+Definition body_mut (e : ref) (t : ty) : list op :=
+  match e, t with 1, 0 => [ODecode false 2 0] | 2, 0 => [ODecode false 1 0] | _, _ => [] end.
+
+Example masked_cycle_occurs :
+  let s := fst (run nonext body_mut never never 256 store_or_load
+                    (init [[ODecode true 1 0]; [ODecode true 1 0]]) [0;0;0;0;0;0;0; 1;1;1;1;1;1;1;1;1;1; 0]) in
+  differs nonext never 256 (log (sh s)).
+Proof.
+  vm_compute. exists 0, {| cref := 1; cty := 0; cpath := [2; 1]; cex := None |}, 2.
+  split; [left; reflexivity|]. split; [discriminate|]. left; reflexivity.
+Qed.
+
+Example masked_depth_occurs :
+  let s := fst (run next12 nobody never never 1 store_or_load
+                    (init [[ODecode true 2 0; ODecode true 1 0]]) [0;0;0;0;0;0;0;0]) in
+  differs next12 never 1 (log (sh s)).
+Proof.
+  vm_compute. exists 0, {| cref := 1; cty := 0; cpath := []; cex := None |}, 1.
+  split; [left; reflexivity|]. split; [discriminate|]. right; left; reflexivity.
+Qed.
+
+(* the decoder of type 0 rejects object 1, but StoreOrLoadPair has published a view of that type *)
+Definition fails10 (e : ref) (t : ty) : bool := andb (Nat.eqb e 1) (Nat.eqb t 0).
+
+Example masked_by_pair_occurs :
+  let s := fst (run nonext nobody fails10 never 256 store_or_load
+                    (init [[OPair 1 0 1; ODecode true 1 0]]) [0;0;0]) in
+  differs nonext fails10 256 (log (sh s)).
+Proof.
+  vm_compute. exists 0, {| cref := 1; cty := 0; cpath := []; cex := None |}, 1.
+  split; [left; reflexivity|]. split; [discriminate|]. right; right. split; [reflexivity|].
+  exists 1. split; [constructor; reflexivity|].
+  exists 0, 0, 1, 1, 2. split; [right; left; reflexivity|left; reflexivity].
+Qed.
